@@ -94,6 +94,16 @@ def _consume(sim, ctx, ds, case, rec):
                 ctx.event('stop', kind, k)
                 if kind == 'close':
                     W.close_iter(it)
+                elif kind == 'throw':
+                    # an exception raised inside the suspended iterator (what a
+                    # generator further down a `yield from` chain, or a signal
+                    # handler, does): it must come back after a clean shutdown
+                    try:
+                        it.throw(W.ConsumerError('thrown into the iterator'))
+                    except W.ConsumerError:
+                        pass
+                    except StopIteration:
+                        pass
                 elif kind in ('drop', 'exc'):
                     # 'exc': the consumer body raised; unwinding drops the
                     # iterator exactly like del (refcounting), see driver.
